@@ -10,7 +10,6 @@ import (
 	"github.com/buildbuildio/pebbles/requests"
 )
 
-
 // ---- HTTP-level federation: the gateway talks to the fake services through the real
 // MultiOpQueryer (queryBatch / fetch / JSON), the harness is the transport. ----
 
@@ -18,11 +17,11 @@ var vHTTPFed *vFed
 
 type vHTTPFault struct {
 	url    string
-	call   int                    // which HTTP call to that service
-	status int                    // != 0: answer with this status
-	raw    string                 // != "": answer with this body verbatim
+	call   int                      // which HTTP call to that service
+	status int                      // != 0: answer with this status
+	raw    string                   // != "": answer with this body verbatim
 	errs   []map[string]interface{} // != nil: answer element 0 with these GraphQL errors
-	terr   bool                   // transport error
+	terr   bool                     // transport error
 }
 
 var vFault *vHTTPFault
